@@ -11,11 +11,15 @@ use serde_json::{json, Value};
 use std::collections::BTreeMap;
 use std::marker::PhantomData;
 
-pub struct TWorld;
+pub struct TWorld { pub hub_paused: bool }
 impl Querier for TWorld {
     fn raw_query(&self, bin: &[u8]) -> QuerierResult {
         let req: QueryRequest<Empty> = match from_json(bin) { Ok(r) => r, Err(e) => return SystemResult::Err(SystemError::InvalidRequest { error: e.to_string(), request: bin.into() }) };
         match req {
+            QueryRequest::Wasm(WasmQuery::Smart { contract_addr, msg }) if contract_addr == "hub" && String::from_utf8_lossy(msg.as_slice()).contains("parameters") => {
+                let p = basset::hub::Parameters { epoch_period: 30, underlying_coin_denom: "usei".into(), unbonding_period: 1000, peg_recovery_fee: Decimal::zero(), er_threshold: Decimal::one(), reward_denom: "uusd".into(), paused: Some(self.hub_paused) };
+                SystemResult::Ok(ContractResult::Ok(to_json_binary(&p).unwrap()))
+            }
             QueryRequest::Wasm(WasmQuery::Smart { contract_addr, .. }) if contract_addr == "hub" => {
                 let c = basset::hub::ConfigResponse { owner: "owner".into(), update_reward_index_addr: "updater".into(), reward_dispatcher_contract: Some("dispatcher".into()),
                     validators_registry_contract: Some("registry".into()), bsei_token_contract: Some("cosmos2contract".into()), stsei_token_contract: Some("stsei_token".into()),
@@ -51,10 +55,10 @@ impl Driver for StTokenWorld {
             let exp: Value = if rng.next() % 3 == 0 { json!(rng.next() % 6) } else { Value::Null };
             ops.push(json!({"op": kind, "a": a, "b": b, "c": c, "amt": rng.amount(cap).to_string(), "mode": rng.next() % 4, "exp": exp, "tick": rng.next() % 3}));
         }
-        json!({"init": init, "ops": ops})
+        json!({"init": init, "ops": ops, "hub_paused": rng.next() % 3 == 0})
     }
     fn run(&self, input: &Value) -> Outcome {
-        let mut deps = OwnedDeps { storage: MockStorage::default(), api: MockApi::default(), querier: TWorld, custom_query_type: PhantomData::<Empty> };
+        let mut deps = OwnedDeps { storage: MockStorage::default(), api: MockApi::default(), querier: TWorld { hub_paused: input["hub_paused"].as_bool().unwrap_or(false) }, custom_query_type: PhantomData::<Empty> };
         let init: Vec<u128> = input["init"].as_array().unwrap().iter().map(u).collect();
         let coins: Vec<Cw20Coin> = init.iter().enumerate().filter(|(_, a)| **a > 0).map(|(k, a)| Cw20Coin { address: WHO[k].to_string(), amount: Uint128::new(*a) }).collect();
         instantiate(deps.as_mut(), mock_env(), mock_info("hub", &[]), TokenInitMsg { name: "stsei".into(), symbol: "STSEI".into(), decimals: 6, initial_balances: coins, hub_contract: "hub".into(),
